@@ -298,6 +298,89 @@ pub fn g1_edge_points() -> &'static Vec<(String, BigUint, BigUint)> {
     })
 }
 
+/// Field elements x of the SM9 base field for which x, x^2 or x^3 has a Montgomery image within a few units of 0 or p, or equal to a power of two / 2^256 - p.
+pub fn mont_edge_abscissas() -> &'static Vec<(String, BigUint)> {
+    use std::sync::OnceLock;
+    static V: OnceLock<Vec<(String, BigUint)>> = OnceLock::new();
+    V.get_or_init(|| {
+        let p = r9::p_static();
+        let ri = rinv() % p;
+        let mut targets: Vec<(String, BigUint)> = Vec::new();
+        for v in 1..=6u32 {
+            targets.push((format!("{}", v), BigUint::from(v)));
+            targets.push((format!("p-{}", v), p - v));
+        }
+        for e in [32u32, 64, 128, 192, 224] {
+            targets.push((format!("2^{}", e), BigUint::one() << e));
+        }
+        targets.push(("2^256-p".into(), r256() - p));
+        targets.push(("2^256-p-1".into(), r256() - p - 1u32));
+        let cube_exp = if (p % 3u32) == BigUint::from(2u32) { Some((p * 2u32 - 1u32) / 3u32) } else { None };
+        let mut out = Vec::new();
+        for (name, v) in targets.iter() {
+            let t = r9::fp(&(v * &ri % p));
+            out.push((format!("mont(x)={}", name), t.v.clone()));
+            if let Some(r) = t.sqrt_any() {
+                out.push((format!("mont(x^2)={}", name), r.v.clone()));
+                out.push((format!("mont(x^2)={}/-x", name), (p - &r.v) % p));
+            }
+            if let Some(e) = &cube_exp {
+                let c = t.pow(e);
+                if c.sqr().mul(&c) == t {
+                    out.push((format!("mont(x^3)={}", name), c.v.clone()));
+                }
+            }
+        }
+        out
+    })
+}
+
+/// Points (x, y) that are NOT on y^2 = x^3 + 5 but on a neighbouring equation y^2 = x^3 + a'x + b' (b +- 1, 0, -5, 10, 5R, 5R^-1; a' = +-1, -3):
+/// what a membership test with one wrong constant, a constant in the wrong domain, one missing reduction or one misplaced carry accepts.
+pub fn g1_near_curve_points() -> &'static Vec<(String, BigUint, BigUint)> {
+    use std::sync::OnceLock;
+    static V: OnceLock<Vec<(String, BigUint, BigUint)>> = OnceLock::new();
+    V.get_or_init(|| {
+        let pr = r9::params();
+        let p = pr.p;
+        let mut xs: Vec<(String, BigUint)> = Vec::new();
+        for v in 1..=4u32 {
+            xs.push((format!("x={}", v), BigUint::from(v)));
+            xs.push((format!("x=p-{}", v), p - v));
+        }
+        xs.extend(mont_edge_abscissas().iter().cloned());
+        let zero = r9::fp_u(0);
+        let five = r9::fp_u(5);
+        let variants: Vec<(String, Fp, Fp)> = vec![
+            ("b=6".into(), zero.clone(), r9::fp_u(6)),
+            ("b=4".into(), zero.clone(), r9::fp_u(4)),
+            ("b=0".into(), zero.clone(), zero.clone()),
+            ("b=-5".into(), zero.clone(), five.neg()),
+            ("b=10".into(), zero.clone(), r9::fp_u(10)),
+            ("b=5R".into(), zero.clone(), five.mul(&r9::fp(&(r256() % p)))),
+            ("b=5R^-1".into(), zero.clone(), five.mul(&r9::fp(&(rinv() % p)))),
+            ("a=1".into(), r9::fp_u(1), five.clone()),
+            ("a=-1".into(), r9::fp_u(1).neg(), five.clone()),
+            ("a=-3".into(), r9::fp_u(3).neg(), five.clone()),
+        ];
+        let mut out = Vec::new();
+        for (xl, x) in xs.iter() {
+            let xf = r9::fp(x);
+            for (vl, a2, b2) in variants.iter() {
+                let rhs = xf.sqr().mul(&xf).add(&a2.mul(&xf)).add(b2);
+                if let Some(y) = rhs.sqrt_any() {
+                    let q = Some((xf.clone(), y.clone()));
+                    if y.v.is_zero() || pr.g1.on_curve(&q) {
+                        continue;
+                    }
+                    out.push((format!("{}/{}", xl, vl), x.clone(), y.v.clone()));
+                }
+            }
+        }
+        out
+    })
+}
+
 /// The reference point `q` as a library G1 object in representation `kind`: 0 affine (Z = 1); 1 what the library computes itself ([k]P1 by
 /// Point::g_mul, when k is known — otherwise affine); 2 Z = 2; 3 pseudo-random Z; 4 Z whose Montgomery limbs are the plain integer 1 (field element R^-1).
 pub fn g1_in_rep(q: &Pt<Fp>, k: Option<&BigUint>, kind: u8, seed: u64) -> Point {
